@@ -141,7 +141,7 @@ def kf_consts(sysd, announce):
 def model_check(sysd, prop, tier, workdir, workers, timeout):
     """Exhaustive TLC run of the reference machine with the property's formulas."""
     results = []
-    for mc in sysd["mc"][tier]:
+    for mc in prop.get("mc", sysd["mc"])[tier]:
         consts = open(os.path.join(ROOT, sysd["dir"], mc["consts"])).read() + kf_consts(sysd, False)
         cfg = os.path.join(workdir, "mc-%s.cfg" % mc["consts"].replace(".consts", ""))
         write_cfg(cfg, mc.get("spec", "Spec"), consts, invariants=prop.get("mc_inv", []), properties=prop.get("mc_props", []),
